@@ -23,7 +23,7 @@ fn run(case: &ExecCase, obs: &mut Obs) -> Result<crate::real::LockSummary, Viola
     Ok(sum)
 }
 
-fn oracle(case: &ExecCase, obs: &mut Obs) -> Result<(), Violation> {
+pub fn oracle(case: &ExecCase, obs: &mut Obs) -> Result<(), Violation> {
     run(case, obs)?;
     obs.nontrivial();
     Ok(())
@@ -35,7 +35,15 @@ fn solution() -> impl Strategy<Value = MSolution> {
     (
         gen::bytes32(),
         gen::bytes32(),
-        proptest::collection::vec(prop_oneof![4 => proptest::collection::vec(gen::word(), 0..6), 1 => proptest::collection::vec(gen::word(), 30..41)], 0..5),
+        proptest::collection::vec(
+            prop_oneof![
+                16 => proptest::collection::vec(gen::word(), 0..6),
+                4 => proptest::collection::vec(gen::word(), 30..41),
+                // a slot longer than the stack (slots may hold up to 10000 words)
+                1 => (4090usize..5010).prop_map(|n| (0..n as i64).collect::<Vec<i64>>()),
+            ],
+            0..5,
+        ),
     )
         .prop_map(|(contract, predicate, data)| MSolution {
             contract,
@@ -61,7 +69,13 @@ fn data_case() -> impl Strategy<Value = ExecCase> {
         })
         .prop_flat_map(|((sols, ix), slot, which, below)| {
             let slen = if slot >= 0 { sols[ix].data.get(slot as usize).map(|s| s.len()).unwrap_or(3) } else { 3 };
-            (Just((sols, ix, slot, which, below)), gen::index_like(slen), prop_oneof![gen::index_like(slen), 0i64..3], proptest::option::weighted(0.2, -1i64..2))
+            let (v, n) = if slen > 4096 {
+                // reads that start / end around offset 4096 of a long slot, and around its end
+                (prop_oneof![2 => 4080i64..4100, 1 => gen::index_like(slen)].boxed(), prop_oneof![3 => 0i64..20, 1 => gen::index_like(slen)].boxed())
+            } else {
+                (gen::index_like(slen).boxed(), prop_oneof![gen::index_like(slen), 0i64..3].boxed())
+            };
+            (Just((sols, ix, slot, which, below)), v, n, proptest::option::weighted(0.2, -1i64..2))
         })
         .prop_map(|((sols, ix, slot, which, mut below), v, n, fit)| {
             // the words pushed leave the stack one short of full, exactly full, or one over
@@ -102,7 +116,7 @@ fn address_case() -> impl Strategy<Value = ExecCase> {
     })
 }
 
-fn pex_case() -> impl Strategy<Value = ExecCase> {
+pub fn pex_case() -> impl Strategy<Value = ExecCase> {
     (solution_set(), 0u8..8, any::<u32>(), any::<u32>(), gen::bytes32(), 0u8..3).prop_map(|((mut sols, ix), mode, pick, pos, random, share)| {
         // several solutions for the same predicate (same addresses, different data): each must be found
         if share == 0 && sols.len() >= 2 {
